@@ -71,8 +71,8 @@ def selftest():
     cs.selftest()
 
 
-def tern_space(n, combo, cli=False):
-    base = cs.db_space(n, combo, 0, cli=cli)
+def tern_space(n, combo, cli=False, base_level=0.0):
+    base = cs.db_space(n, combo, 0, cli=cli, base_level=base_level)
 
     def decode(i):
         case = base.decode(i)
@@ -99,6 +99,8 @@ def spaces(tier):
             out.append(tern_space(3, combo))
         for combo in cs.COMBOS[2:4]:
             out.append(tern_space(4, combo))
+        out.append(tern_space(3, cs.COMBOS[2], base_level=-171.6))
+        out.append(tern_space(3, cs.COMBOS[3], base_level=4097.75))
         for config in EVENT_CONFIGS[:2]:
             out.append(event_space(2, config))
     else:
